@@ -31,6 +31,8 @@ type ValGen struct {
 	// noNull: inside a set Nullable the value must not encode as null (it could not
 	// be told from an unset one)
 	noNull bool
+	// PathWords: constant segments of the API's templates (candidate path values)
+	PathWords []string
 	// NoHuge: no (further) megabyte-sized string in this value
 	NoHuge bool
 	// Stats
@@ -56,6 +58,10 @@ func (g *ValGen) String() string {
 	case "header":
 		return rapid.SampledFrom([]string{"plain", "a b", "x,y", "tok=en; q=0.5", "\"quoted\"", "~!@#$%^&*()_+-=", "0", "true", "", "with:colon", "ümlaut"[0:1] + "mlaut"}).Draw(t, g.label("hstr"))
 	case "path":
+		// a value may coincide with a constant segment of some template of the same API
+		if len(g.PathWords) > 0 && rapid.IntRange(0, 5).Draw(t, g.label("pconst")) == 0 {
+			return rapid.SampledFrom(g.PathWords).Draw(t, g.label("pword"))
+		}
 		switch rapid.IntRange(0, 2).Draw(t, g.label("pkind")) {
 		case 0:
 			return rapid.SampledFrom([]string{"x", "two words", "a+b", "100%", "q?x=1", "frag#ment", "a&b=c", "semi;colon", "..", ".", "ünï", "😀", "a%2Fb", "-", "~", "a:b@c", "[x]", "{v}", "tab\there"}).Draw(t, g.label("pstr"))
